@@ -99,6 +99,44 @@ def concretise(blocks, kind, seed=0):
     return pos, neg, vals
 
 
+MIXED_KINDS = ["mixed", "mixed_narrow", "mixed_narrow_neg", "mixed_f32"]
+
+
+def concretise_mixed(blocks, kind):
+    """
+    The two classes are stored in *different* dtypes. -> (pos, neg, vals, pos_array, neg_array); the lists hold
+    the exact values (Python int/float), the arrays are unsorted and have the dtypes under test.
+      mixed            int64 positives, float64 negatives with non-integral values where the order type allows
+      mixed_narrow     uint8 positives, int64 negatives whose extreme values (-5, 300) lie outside the uint8 range
+      mixed_narrow_neg the same with the roles of the classes exchanged
+      mixed_f32        float32 positives, float64 negatives that are not representable in float32
+    """
+    import numpy as np
+
+    m = len(blocks)
+    pos, neg, vals = [], [], []
+    for i, (a, c) in enumerate(blocks):
+        if kind == "mixed":
+            v = 2 * i if a else 2 * i + 0.5
+        elif kind in ("mixed_narrow", "mixed_narrow_neg"):
+            narrow_here = a if kind == "mixed_narrow" else c
+            v = 10 * i + 5
+            if i == 0:
+                v = 3 if narrow_here else -5
+            if i == m - 1 and m > 1:
+                v = 250 if narrow_here else 300
+        elif kind == "mixed_f32":
+            v = float(i) + 0.5 if a else float(i) + 0.1  # k + 0.1 is not a float32 value
+        else:
+            raise ValueError(kind)
+        vals.append(v)
+        pos += [v] * a
+        neg += [v] * c
+    dts = {"mixed": (np.int64, np.float64), "mixed_narrow": (np.uint8, np.int64), "mixed_narrow_neg": (np.int64, np.uint8),
+           "mixed_f32": (np.float32, np.float64)}[kind]
+    return pos, neg, vals, np.array(pos[::-1], dtype=dts[0]), np.array(neg[::-1], dtype=dts[1])
+
+
 def threshold_alphabet(vals):
     """Complete relative alphabet for m distinct values: 4m+3 points (m>=1)."""
     vals = [float(v) for v in vals]
